@@ -706,6 +706,13 @@ func evalStack(sstack []any) []any {
 						break
 					}
 				}
+			} else if list, ok := right.(gen.Array); ok {
+				for _, ev := range list {
+					if sameValue(left, normalize(ev)) {
+						sstack[i] = true
+						break
+					}
+				}
 			}
 		case empty.code:
 			sstack[i] = false
@@ -716,6 +723,10 @@ func evalStack(sstack []any) []any {
 				case []any:
 					sstack[i] = boo == (len(tl) == 0)
 				case map[string]any:
+					sstack[i] = boo == (len(tl) == 0)
+				case gen.Array:
+					sstack[i] = boo == (len(tl) == 0)
+				case gen.Object:
 					sstack[i] = boo == (len(tl) == 0)
 				}
 			}
@@ -746,6 +757,10 @@ func evalStack(sstack []any) []any {
 			case []any:
 				sstack[i] = int64(len(tl))
 			case map[string]any:
+				sstack[i] = int64(len(tl))
+			case gen.Array:
+				sstack[i] = int64(len(tl))
+			case gen.Object:
 				sstack[i] = int64(len(tl))
 			}
 		case count.code:
